@@ -11,7 +11,7 @@ from .core import Ctx, Infra, casehash, log
 @pipeline
 def c13(ctx: Ctx):
     ctx.assumptions = [
-        "TLC; spec/Defaults.tla (WithDefaults as least fixed point, FixedPoint checked by TLC); spec/BodyStream.tla (L2 model of the three body-handling sites of one validation, checked against 'body readable'; the pinned-tree variant must still show the known counterexample); spec/BodyStreamH.tla (L2 model of several requests over a heap of byte buffers, validation phases interleaved, read / rewind / validate-again histories, query and header as carriers; checked against L1-at-rest for the repaired design and for the tree on JSON bodies; three design variants -- no encoder for a decodable type, pooled encoder buffer, Close bound at return -- must each show their counterexample)",
+        "TLC; spec/Defaults.tla (WithDefaults as least fixed point, FixedPoint checked by TLC); spec/BodyStream.tla (L2 model of the three body-handling sites of one validation, checked against 'body readable'; the pinned-tree variant must still show the known counterexample); spec/BodyStreamH.tla (L2 model of several requests over a heap of byte buffers, validation phases interleaved, read / rewind / validate-again histories, query and header as carriers; checked against L1-at-rest for the repaired design and for the tree on JSON-family bodies; the tree on form bodies (F-C13-5) and three refuted designs -- the code before d801280 (F-C13-4), pooled encoder buffer, Close bound at return -- must each show their counterexample)",
         "harness realiser/projector harness/c13.go: single cases: body drained after each validation, GetBody/ContentLength read back, second validation on the forwarded request; history cases: validations and reads in the order the history says (reads are not forced after a validation), the request rewound as a transport does; document digest before/after; parameter defaults observed by decoding the forwarded request (verif hook); kind of reader / GetBody installed (fidelity against BodyStreamH)",
         "bodies in every media type with a decoder that can carry an object (JSON family, YAML, urlencoded, multipart); forwarded non-JSON bodies are projected with the decoder the library exports for the type",
         "left open (excluded): the carriers of parameter defaults after a REJECTED validation (the statement is silent); form bodies with ill-typed / undeclared fields and typed multipart parts (property C06)",
@@ -31,9 +31,11 @@ def c13(ctx: Ctx):
             lambda: ctx.tlc("MC_C13", "MC_C13_pinned.cfg", workers=2, expect_violation=True, label="D pinned-model counterexample (restore missing)"),
             # BodyStreamH: several requests over a heap of buffers, phases interleaved, histories (validate / read / rewind / validate again)
             lambda: ctx.tlc("MC_C13H", "MC_C13H_repaired%s.cfg" % th, workers=4, label="D BodyStreamH repaired design => L1 at rest"),
-            lambda: ctx.tlc("MC_C13H", "MC_C13H_tree_json%s.cfg" % th, workers=4, label="D BodyStreamH as the tree is, JSON bodies => L1 at rest"),
+            lambda: ctx.tlc("MC_C13H", "MC_C13H_tree_json%s.cfg" % th, workers=4, label="D BodyStreamH as the tree is, JSON-family bodies => L1 at rest"),
             lambda: ctx.tlc("MC_C13H", "MC_C13H_tree%s.cfg" % th, workers=2, expect_violation=True,
-                            label="D BodyStreamH as the tree is, every decodable type: counterexample (no encoder; F-C13-4/5)"),
+                            label="D BodyStreamH as the tree is, every decodable type: counterexample (forms forwarded without their defaults; F-C13-5)"),
+            lambda: ctx.tlc("MC_C13H", "MC_C13H_pinned%s.cfg" % th, workers=2, expect_violation=True,
+                            label="D BodyStreamH before d801280: counterexample (JSON family not encodable, GetBody emptied; F-C13-4)"),
             lambda: ctx.tlc("MC_C13H", "MC_C13H_pooled%s.cfg" % th, workers=2, expect_violation=True,
                             label="D BodyStreamH encoder hands out a pooled buffer: counterexample (requests share bytes)"),
             lambda: ctx.tlc("MC_C13H", "MC_C13H_closelate%s.cfg" % th, workers=2, expect_violation=True,
